@@ -829,7 +829,11 @@ def process(rep, histories, kind, quick, state):
         state["sig_count"][sig] = state["sig_count"].get(sig, 0) + 1
         if state["sig_count"][sig] > (1 if quick else 2):
             continue
-        small = shrink(ops, ev)
+        state["shrinks"] = state.get("shrinks", 0) + 1
+        if state["shrinks"] <= (6 if quick else 20):
+            small = shrink(ops, ev)
+        else:                                   # time budget: keep the prefix up to the first disagreement
+            small = ops[:j + 1]
         small = clean(small)
         tr2, _ = run_history(small)
         req = model_trace(small)
